@@ -151,4 +151,110 @@ theorem parse_enum_eq (cls : ClsObj ν) (j : JEnum ν) :
     rw [SrcTieEnum.try_value_eq]
     rfl
 
+/-! ### `_Timestamp.timestamp_to_json`, whole -/
+
+/-- the fraction of the model (`tsFrac`, BpModel/Time.lean) as the f-string parameters -/
+def fracJ (u : Nat) : Option (Int × Int) := (tsFrac u).map fun p => ((p.1 : Int), (p.2 : Int))
+
+/-- what `timestamp_to_json` as written returns, for EVERY datetime: the calendar text of the
+    whole second of the UTC-normalised reading (`instant / 10^6`), and the fraction `tsFrac` of
+    the microsecond OF THE ORIGINAL WALL CLOCK (`dt.microsecond` is read before `astimezone`) -/
+def tsJsonOf (d : DT) : TsText := ⟨⟨d.instant / 1000000⟩, fracJ (d.wall % 1000000).toNat⟩
+
+/-- the model text of an instant (microseconds since the epoch): RFC 3339 in UTC with 0 / 3 / 6
+    fractional digits and the suffix "Z" — what `JVal.tsStr us` stands for -/
+def tsJsonText (us : Int) : TsText := ⟨⟨us / 1000000⟩, fracJ (us % 1000000).toNat⟩
+
+/-- the fraction of a second the f-string parameters spell, in microseconds: `digits / 10^W` s -/
+def fracUsOf : Option (Int × Int) → Int
+  | none => 0
+  | some (w, dg) => dg * 10 ^ (6 - w).toNat
+
+/-- the instant a `TsText` spells, in microseconds -/
+def tsTextUs (t : TsText) : Int := t.iso.secs * 1000000 + fracUsOf t.frac
+
+theorem frac_chain (u : Nat) (hlt : u < 1000000) (r : IsoText) :
+    ((Py.fmod ((u : Int) * 1000) 1000000000).bind fun t4 =>
+      if (decide (t4 = (0 : Int))) then .ok (PyLeaf.tsText r Py.fmtFrac0)
+      else (Py.fmod ((u : Int) * 1000) 1000000).bind fun t5 =>
+        if (decide (t5 = (0 : Int))) then
+          (Py.ffloordiv ((u : Int) * 1000) 1000000).bind fun t6 => .ok (PyLeaf.tsText r (Py.fmtFrac 3 t6))
+        else (Py.fmod ((u : Int) * 1000) 1000).bind fun t7 =>
+          if (decide (t7 = (0 : Int))) then
+            (Py.ffloordiv ((u : Int) * 1000) 1000).bind fun t8 => .ok (PyLeaf.tsText r (Py.fmtFrac 6 t8))
+          else (.raise .value : Res TsText))
+      = .ok ⟨r, fracJ u⟩ := by
+  rw [SrcTie.fmod_e9 u hlt, SrcTie.ok_bind, SrcTie.fmod_e6 u hlt, SrcTie.ok_bind, SrcTie.fdiv_e6 u hlt, SrcTie.ok_bind,
+    SrcTie.fmod_e3 u, SrcTie.ok_bind, SrcTie.fdiv_e3 u hlt, SrcTie.ok_bind]
+  simp only [decide_eq_true_eq, Py.fmtFrac0, Py.fmtFrac, if_true, PyLeaf.tsText, fracJ, tsFrac]
+  by_cases h0 : u = 0
+  · have h0' : (u : Int) * 1000 = 0 := by omega
+    rw [if_pos h0', if_pos h0]; rfl
+  · have h0' : ¬ ((u : Int) * 1000 = 0) := by omega
+    rw [if_neg h0', if_neg h0]
+    by_cases h1 : u % 1000 = 0
+    · have h1' : ((u % 1000 : Nat) : Int) * 1000 = 0 := by omega
+      rw [if_pos h1', if_pos h1]; rfl
+    · have h1' : ¬ (((u % 1000 : Nat) : Int) * 1000 = 0) := by omega
+      rw [if_neg h1', if_neg h1]; rfl
+
+
+
+theorem isoformat_replace (d : DT) : PyLeaf.isoformat (PyLeaf.replaceMicro0Naive d) = .ok ⟨d.wall / 1000000⟩ := by
+  unfold PyLeaf.isoformat PyLeaf.replaceMicro0Naive
+  have hz : (d.wall - d.wall % 1000000) % 1000000 = 0 := by omega
+  have hq : (d.wall - d.wall % 1000000) / 1000000 = d.wall / 1000000 := by omega
+  rw [if_pos ⟨rfl, hz⟩, hq]
+
+/-- `_Timestamp.timestamp_to_json` as written, WHOLE, on every datetime (aware with any offset, or naive):
+    the float arithmetic stays exact, the last branch is not reached, the result is `tsJsonOf` -/
+theorem timestamp_to_json_eq (d : DT) : Src.timestamp_to_json d = .ok (tsJsonOf d) := by
+  obtain ⟨wall, off⟩ := d
+  have hu : PyLeaf.dtMicrosecond ⟨wall, off⟩ = (((wall % 1000000).toNat : Nat) : Int) := by
+    unfold PyLeaf.dtMicrosecond; simp only; omega
+  have hlt : (wall % 1000000).toNat < 1000000 := by omega
+  unfold Src.timestamp_to_json
+  rw [hu, SrcTie.fmul_us _ hlt, SrcTie.ok_bind]
+  cases off with
+  | none =>
+    rw [if_neg (by simp [PyLeaf.tzinfoIsNotNone])]
+    simp only []
+    rw [isoformat_replace, SrcTie.ok_bind, frac_chain _ hlt]
+    simp only [tsJsonOf, DT.instant, Option.getD_none, Int.sub_zero]
+  | some o =>
+    rw [if_pos (by simp [PyLeaf.tzinfoIsNotNone])]
+    simp only [PyLeaf.astimezoneUtc, SrcTie.ok_bind]
+    rw [isoformat_replace, SrcTie.ok_bind, frac_chain _ hlt]
+    simp only [tsJsonOf, DT.instant, Option.getD_some]
+
+
+/-- UTC normalisation preserves the microsecond when the offset is a whole number of seconds
+    (every IANA zone, every `timezone(timedelta(hours=…, minutes=…, seconds=…))`) -/
+theorem tsJsonOf_whole_offset (d : DT) (h : d.off.getD 0 % 1000000 = 0) : tsJsonOf d = tsJsonText d.instant := by
+  unfold tsJsonOf tsJsonText DT.instant
+  have : d.wall % 1000000 = (d.wall - d.off.getD 0) % 1000000 := by omega
+  rw [this]
+
+theorem fracUs (u : Nat) (_hlt : u < 1000000) :
+    fracUsOf (fracJ u) = (u : Int) := by
+  unfold fracJ tsFrac
+  by_cases h0 : u = 0
+  · rw [if_pos h0]; simp only [Option.map_none, fracUsOf]; omega
+  · rw [if_neg h0]
+    by_cases h1 : u % 1000 = 0
+    · rw [if_pos h1]; simp only [Option.map_some, fracUsOf]
+      have : ((6 : Int) - ((3 : Nat) : Int)).toNat = 3 := by decide
+      rw [this]; simp only [show (10 : Int) ^ 3 = 1000 from rfl]; push_cast; omega
+    · rw [if_neg h1]; simp only [Option.map_some, fracUsOf]
+      have : ((6 : Int) - ((6 : Nat) : Int)).toNat = 0 := by decide
+      rw [this, Int.pow_zero, Int.mul_one]
+
+/-- the model text spells the instant exactly -/
+theorem tsTextUs_tsJsonText (us : Int) : tsTextUs (tsJsonText us) = us := by
+  have hlt : (us % 1000000).toNat < 1000000 := by omega
+  unfold tsTextUs tsJsonText
+  simp only
+  rw [fracUs _ hlt]
+  omega
+
 end Bp.SrcTieLeaf
